@@ -80,6 +80,25 @@ Theorem C07_order_no_overlap_auto_margins : forall (items : list Item) (gap inne
   ForallOrdPairs (fun a b => if rv then sepR 0 b a else sepR 0 a b) (combine (combine items' sizes) pos).
 Proof. exact order_auto_margins. Qed.
 
+(* ---- the justify-content table (regenerated from compute_alignment_offset on every run) has the CSS Box Alignment values:
+   with non-negative free space f, gap g and n >= 2 items, the first item is offset by `first`, every further item by `next`
+   (space-between: free/(n-1) between items; space-around: free/n between and half of it at both ends; space-evenly:
+   free/(n+1) everywhere; flex-start/flex-end follow the direction).  The order law only needs next >= gap; this pins
+   the rest of the table, so that an edit of one arm is noticed even when it cannot make items overlap. *)
+Theorem C07_justify_offsets_spec : forall (f g : Q) (n : Z) (rv : bool), 0 <= f -> (2 <= n)%Z ->
+  let first m := val (compute_alignment_offset (Fin f) n (Fin g) m rv true) in
+  let next m := val (compute_alignment_offset (Fin f) n (Fin g) m rv false) in
+  (first AC_Start == 0 /\ next AC_Start == g) /\
+  (first AC_End == f /\ next AC_End == g) /\
+  (first AC_FlexStart == (if rv then f else 0) /\ next AC_FlexStart == g) /\
+  (first AC_FlexEnd == (if rv then 0 else f) /\ next AC_FlexEnd == g) /\
+  (first AC_Center == f / 2 /\ next AC_Center == g) /\
+  (first AC_Stretch == 0 /\ next AC_Stretch == g) /\
+  (first AC_SpaceBetween == 0 /\ next AC_SpaceBetween == g + f / inject_Z (n - 1)) /\
+  (first AC_SpaceAround == f / inject_Z n / 2 /\ next AC_SpaceAround == g + f / inject_Z n) /\
+  (first AC_SpaceEvenly == f / inject_Z (n + 1) /\ next AC_SpaceEvenly == g + f / inject_Z (n + 1)).
+Proof. exact justify_offsets_spec. Qed.
+
 (* ---------------------------------------------------------------------------------------------- witnesses *)
 Ltac qdec := first [exact I | reflexivity | (vm_compute; reflexivity) | (vm_compute; intro; discriminate)].
 Definition fq (z : Z) : XQ := Fin (inject_Z z).
@@ -189,6 +208,7 @@ Print Assumptions C07_loop_terminates.
 Print Assumptions C07_every_iteration_freezes.
 Print Assumptions C07_order_no_overlap.
 Print Assumptions C07_order_no_overlap_auto_margins.
+Print Assumptions C07_justify_offsets_spec.
 Print Assumptions C07_gap_dropped_with_auto_margins_refuted.
 Print Assumptions C07_inset_refuted.
 Print Assumptions C07_exhausted_laid_out_sizes_refuted.
